@@ -29,7 +29,8 @@ Inductive op :=
 | OTick (k : nat)               (* executor polls the (k mod |ready|)-th ready task *)
 | ORun                          (* executor polls in FIFO order until idle (at most 64 polls) *)
 | OPause (e : nat) | OResume (e : nat)   (* the owner the effect was created under *)
-| ODispose (e : nat).           (* that owner is cleaned up / the RenderEffect is dropped *)
+| ODispose (e : nat)            (* that owner is cleaned up / the RenderEffect is dropped *)
+| ODropSrc (n : nat).           (* the arena signal / memo n is disposed: value and subscriber set dropped *)
 
 Definition POLL_FUEL : nat := 64.
 Definition RUN_LIMIT : nat := 64.
@@ -153,9 +154,13 @@ Definition step (s : state) (o : op) : state :=
   if halted s then s else
   let s := emit EvOp s in
   match o with
-  | OWrite j v => if is_sig j then nfy j (updn j (fun n => set_sval n v) s) else set_err s
-  | ONotify j => if is_sig j then nfy j s else set_err s
-  | ORead n => if is_eff n then set_err s else fst (read_top p n s)
+  | OWrite j v => if is_sig j then
+                    if sgone (getn s j) then s else nfy j (updn j (fun n => set_sval n v) s)
+                  else set_err s
+  | ONotify j => if is_sig j then (if sgone (getn s j) then s else nfy j s) else set_err s
+  | ORead n => if is_eff n then set_err s
+               else if sgone (getn s n) then s      (* the harness does not touch a disposed handle *)
+               else fst (read_top p n s)
   | OTick k =>
       match ready s with
       | [] => emit (EvPoll None) s
@@ -168,6 +173,8 @@ Definition step (s : state) (o : op) : state :=
   | OPause e => if is_eff e then updn e (fun n => set_epaused n true) s else s
   | OResume e => if is_eff e then updn e (fun n => set_epaused n false) s else s
   | ODispose e => if is_eff e then dispose e s else s
+  | ODropSrc n => if is_eff n then s
+                  else updn n (fun nd => set_subs (set_edone nd true) []) s
   end.
 
 (* creation, in index order *)
